@@ -1745,6 +1745,13 @@ impl<'a, MutexType, T> FusedFuture for ChannelReceiveFuture<'a, MutexType, T> {'
     {'name': 'benign-refactor-RF19-event-timer-clock-3', 'props': ALLP + ['C16'], 'patch': 'benign/RF19/patch.diff'},
     {'name': 'benign-refactor-RF21-list-heap-buffers-utils-3', 'props': ALLP + ['C16'], 'patch': 'benign/RF21/patch.diff'},
     {'name': 'benign-refactor-RF20-oneshot-broadcast-state-3', 'props': [p_ for p_ in ALLP + ['C16'] if p_ != 'C11'], 'patch': 'benign/RF20/patch.diff'},
+    {'name': 'benign-refactor-RF22-mutex-semaphore-4', 'props': ALLP + ['C16'], 'patch': 'benign/RF22/patch.diff'},
+    {'name': 'benign-refactor-RF23-mpmc-4', 'props': ALLP + ['C16'], 'patch': 'benign/RF23/patch.diff'},
+    {'name': 'benign-refactor-RF24-futures-errors-utils-4', 'props': ALLP + ['C16'], 'patch': 'benign/RF24/patch.diff'},
+    {'name': 'benign-refactor-RF25-event-timer-4', 'props': ALLP + ['C16'], 'patch': 'benign/RF25/patch.diff'},
+    {'name': 'benign-refactor-RF26-oneshot-broadcast-4', 'props': ALLP + ['C16'], 'patch': 'benign/RF26/patch.diff'},
+    {'name': 'benign-refactor-RF27-state-broadcast-4', 'props': ALLP + ['C16'], 'patch': 'benign/RF27/patch.diff'},
+    {'name': 'benign-refactor-RF28-list-heap-buffers-4', 'props': ALLP + ['C16'], 'patch': 'benign/RF28/patch.diff'},
     {'name': 'benign-unrelated-additions', 'props': ALLP, 'edits': [
         {'file': 'src/sync/semaphore.rs',
          'old': '''    /// Returns the amount of permits that are available on the semaphore
